@@ -647,6 +647,28 @@ def r14_ord_min(text):
         cnt += 1
 
 
+def r15_with_manager(text, this_name):
+    """R15: `self.with_manager_shared(|MGR, X| BODY)` (the whole body of a default method of the function traits)
+    -> `{ let X = THIS; BODY }`: the manager lock / closure plumbing of `Function::with_manager_shared` is dropped,
+    the closure body is kept verbatim.  MGR must be `manager` (the name of the replacement header's parameter)."""
+    cnt = 0
+    while True:
+        m = mask(text)
+        mm = re.search(r'\bself\s*\.\s*with_manager_(shared|exclusive)\s*\(\s*\|\s*(\w+)\s*,\s*(\w+)\s*\|', m)
+        if not mm:
+            return text, cnt
+        if mm.group(2) != 'manager':
+            raise AnchorLost('R15: closure manager parameter is not called `manager`')
+        op = m.index('(', mm.start())
+        cl = match_close(m, op)
+        body = text[mm.end():cl].strip()
+        text = text[:mm.start()] + '{ let ' + mm.group(3) + ' = ' + this_name + '; ' + body + ' }' + text[cl + 1:]
+        cnt += 1
+        # outside the closure: the handle `self` is the edge THIS; cloning a handle is cloning its edge
+        text = re.sub(r'\bself\s*\.\s*clone\s*\(\s*\)', 'manager.clone_edge(%s)' % this_name, text)
+        text, _ = rename_ident(text, 'self', this_name)
+
+
 def rename_ident(text, old, new):
     m = mask(text)
     out = []
